@@ -3158,12 +3158,16 @@ def skeleton_family(max_letters, max_words=4, max_len=3):
 
 
 @guarded
-def q08u(ctx, skeleton, settings=None, second_ast='same'):
+def q08u(ctx, skeleton, settings=None, second_ast='same', kinds=None, orders=False):
     """Q08u: the self-check block of RegExp::from as a unit: whatever expression the automaton stages hand over (any expression of the given shape whose language is the set of test cases), a leftmost-first search of every test case with the printed pattern returns the whole test case"""
     settings = dict(settings or {})
     stag = ''.join('[%s]' % k for k in sorted(settings) if settings[k])
-    ob = Obligation('Q08u[%s]%s%s' % (skel_text(skeleton), stag, '' if second_ast == 'same' else '[2nd=%s]' % second_ast), q08u.__doc__)
+    ob = Obligation('%s[%s]%s%s%s' % ('Q10u' if orders else 'Q08u', skel_text(skeleton), stag, '' if second_ast == 'same' else '[2nd=%s]' % second_ast,
+                                      '[kinds=%s]' % kinds if kinds else ''), q08u.__doc__ if not orders else
+                    'Q10u: the self-check block of RegExp::from as a unit, run under three hash-order policies: the printed text is the same')
     words_ix, nleaf = skel_words(skeleton)
+    if kinds is not None and (len(kinds) != nleaf or not settings.get('digits')):
+        raise Inconclusive('kinds needs one d/l per leaf and the digits conversion')
     ob.domain = ('Dfa::from / Expression::from are replaced by stubs that return an expression of shape %s over %d letters a..z (every equality '
                  'pattern; built with the real constructors new_literal / new_concatenation / new_alternation / new_repetition); the test cases '
                  'are its %d words; settings: %s. Executed from MIR: the rest of RegExp::from (sorting, clustering, convert_expr_to_regex, '
@@ -3171,11 +3175,21 @@ def q08u(ctx, skeleton, settings=None, second_ast='same'):
                      skel_text(skeleton), nleaf, len(words_ix), ', '.join(k for k in sorted(settings) if settings[k])))
     ob.bound = 'this expression shape'
     letters = [z3.BitVec('x%d' % i, 32) for i in range(nleaf)]
-    assume = [z3.And(z3.UGE(v, BV(0x61, 32)), z3.ULE(v, BV(0x7A, 32))) for v in letters]
+    assume = [z3.And(z3.UGE(v, BV(0x30, 32)), z3.ULE(v, BV(0x39, 32))) if (kinds and kinds[i] == 'd') else
+              z3.And(z3.UGE(v, BV(0x61, 32)), z3.ULE(v, BV(0x7A, 32))) for i, v in enumerate(letters)]
+    if kinds:
+        ob.domain += '; leaves marked d are ASCII digits 0..9 (converted to \\d by the real convert_to_char_classes), the others letters: ' + kinds
     cases = [[letters[i] for i in w] for w in words_ix]
+    fresh = []
+    if kinds:
+        # a \\d leaf stands for ANY digit: every test case has its own digit at such a position
+        cases = [[letters[i] if kinds[i] != 'd' else z3.BitVec('y%d_%d' % (wi, j), 32) for j, i in enumerate(w)] for wi, w in enumerate(words_ix)]
+        fresh = [c for w, ix in zip(cases, words_ix) for c, i in zip(w, ix) if kinds[i] == 'd']
+        assume += [z3.And(z3.UGE(v, BV(0x30, 32)), z3.ULE(v, BV(0x39, 32))) for v in fresh]
     fields = ctx.mir.structs.get('RegExpConfig')
     off = {k: (BV(1, 32) if k.startswith('minimum_') else z3.BoolVal(False)) for k in fields}
-    names = {'capture': 'is_capturing_group_enabled', 'no_start_anchor': 'is_start_anchor_disabled', 'no_end_anchor': 'is_end_anchor_disabled'}
+    names = {'capture': 'is_capturing_group_enabled', 'no_start_anchor': 'is_start_anchor_disabled', 'no_end_anchor': 'is_end_anchor_disabled',
+             'digits': 'is_digit_converted'}
     for k, val in settings.items():
         if k not in names:
             raise Inconclusive('setting %s is not supported by Q08u' % k)
@@ -3186,6 +3200,7 @@ def q08u(ctx, skeleton, settings=None, second_ast='same'):
     f_alt = ctx.mir.one_fn(r'^expression::<impl at [^>]*>::new_alternation$')
     f_rep = ctx.mir.one_fn(r'^expression::<impl at [^>]*>::new_repetition$')
     f_clu = ctx.mir.one_fn(r'^cluster::<impl at [^>]*>::from$')
+    f_conv = ctx.mir.one_fn(r'^cluster::<impl at [^>]*>::convert_to_char_classes$')
     qvars = ctx.mir.enums.get('Quantifier')
     if not qvars or 'QuestionMark' not in qvars:
         raise Inconclusive('Quantifier enum changed: %s' % (qvars,))
@@ -3220,6 +3235,10 @@ def q08u(ctx, skeleton, settings=None, second_ast='same'):
             s_ = st.ref(SymStr(letters[pos[0]:pos[0] + sk[1]]))
             pos[0] += sk[1]
             st, cl = one(ex.run_fn(st, f_clu, [s_, cfg]), 'GraphemeCluster::from')
+            if settings.get('digits'):
+                r_ = st.ref(cl)
+                st, _u = one(ex.run_fn(st, f_conv, [r_]), 'convert_to_char_classes')
+                cl = st.load(r_)
             return one(ex.run_fn(st, f_lit, [cl, cfg]), 'new_literal')
         if k == 'C':
             st, a = build(st, sk[1], pos)
@@ -3244,6 +3263,10 @@ def q08u(ctx, skeleton, settings=None, second_ast='same'):
         for w in cases:
             s_ = st.ref(SymStr(w))
             st, cl = one(ex.run_fn(st, f_clu, [s_, cfg]), 'GraphemeCluster::from')
+            if settings.get('digits'):
+                r_ = st.ref(cl)
+                st, _u = one(ex.run_fn(st, f_conv, [r_]), 'convert_to_char_classes')
+                cl = st.load(r_)
             st, l_ = one(ex.run_fn(st, f_lit, [cl, cfg]), 'new_literal')
             vs.append(l_)
         if len(vs) == 1:
@@ -3254,7 +3277,7 @@ def q08u(ctx, skeleton, settings=None, second_ast='same'):
         raise Inconclusive('second_ast ' + second_ast)
     asts['min'], asts['trie'] = ast_min, ast_trie
     # the handed-over expression must denote the test cases (that is the contract of the automaton stages, C16)
-    lang = expression_language(st, ast_min)
+    lang = expression_language(st, ast_min) if not settings.get('digits') else cases
     if not all(any(len(a_) == len(b_) and all(x.eq(y) for x, y in zip(a_, b_)) for b_ in cases) for a_ in lang) or len(lang) != len(cases):
         raise Inconclusive('the expression built for the skeleton does not denote its words')
     v = st.ref(ListV([SymStr(c) for c in cases]))
@@ -3262,6 +3285,22 @@ def q08u(ctx, skeleton, settings=None, second_ast='same'):
     f_fmt = display_fmt_name(ctx, 'RegExp')
     bads = []
     npaths = 0
+    printed = {}
+    if orders:
+        # the same block under the other hash-order policies (every HashSet / HashMap iteration reversed / rotated by one)
+        for pol in ('reverse', 'rotate'):
+            ex.hash_order = pol
+            res = []
+            for o in ex.run_fn(st.fork(), f_from, [v, cfg]):
+                if o.panic:
+                    res.append((o.st, None))
+                    continue
+                buf = o.st.ref(SymStr(()))
+                for o2 in ex.run_fn(o.st, f_fmt, [o.st.ref(o.val), buf]):
+                    res.append((o2.st, None if o2.panic else list(o2.st.load(buf).items)))
+            printed[pol] = res
+        ex.hash_order = 'insertion'
+    base_paths = []
     for o in ex.run_fn(st, f_from, [v, cfg]):
         if o.panic:
             bads.append(z3.And(*o.st.pc))
@@ -3276,12 +3315,32 @@ def q08u(ctx, skeleton, settings=None, second_ast='same'):
             items = list(o2.st.load(buf).items)
             cls = re.sub(r'<[^>]*>', 'x', ''.join(chr(concrete(x)) if concrete(x) is not None else 'x' for x in items))
             ob.classes_seen[cls] = ob.classes_seen.get(cls, 0) + 1
+            base_paths.append((o2.st, items))
+            if orders:
+                continue
             words, sa, ea = pattern_words(ex, o2.st, items, ctx.oracle)
             if sa != (not settings.get('no_start_anchor')) or ea != (not settings.get('no_end_anchor')):
                 bads.append(z3.And(*o2.st.pc))
                 continue
             full = [RS.search_is_full(words, c, ctx.oracle, sa, ea) for c in cases]
             bads.append(z3.And(*o2.st.pc, z3.Not(z3.And(*full))))
+    for pol, res in printed.items():
+        for sp, tp in base_paths:
+            ids_p = {d.get_id() for d in sp.pc}
+            neg_p = {z3.Not(d).get_id() for d in sp.pc} | {d.arg(0).get_id() for d in sp.pc if z3.is_not(d)}
+            for sq, tq in res:
+                extra = [c for c in sq.pc if c.get_id() not in ids_p]
+                if any(c.get_id() in neg_p for c in extra):
+                    continue
+                if extra and not ex.feasible(sp.pc, z3.And(*extra)):
+                    continue
+                both = list(sp.pc) + extra
+                if tq is None or len(tq) != len(tp):
+                    bads.append(z3.And(*both))
+                else:
+                    diff = z3.simplify(z3.Not(z3.And(*[x == y for x, y in zip(tp, tq)])))
+                    if not z3.is_false(diff):
+                        bads.append(z3.And(*both, diff))
     ctx.finish(ob, ex, t0)
     ob.paths = npaths
     ob.extra['expression_from_calls'] = calls['n']
@@ -3289,15 +3348,18 @@ def q08u(ctx, skeleton, settings=None, second_ast='same'):
     if len(ob.classes_seen) > 40:
         ob.classes_seen = dict(sorted(ob.classes_seen.items(), key=lambda kv: -kv[1])[:40])
 
+    allv = letters + fresh
+
     def blocker(m):
-        vals = [m.eval(c, model_completion=True).as_long() for c in letters]
+        vals = [m.eval(c, model_completion=True).as_long() for c in allv]
         parts = []
-        for i in range(len(letters)):
-            for j in range(i + 1, len(letters)):
-                parts.append((letters[i] == letters[j]) if vals[i] == vals[j] else (letters[i] != letters[j]))
+        for i in range(len(allv)):
+            for j in range(i + 1, len(allv)):
+                parts.append((allv[i] == allv[j]) if vals[i] == vals[j] else (allv[i] != allv[j]))
         return z3.Not(z3.And(*parts)) if parts else z3.BoolVal(False)
-    ob.verdict = decide(ob.qid, assume + ob.defs, z3.Or(*bads) if bads else z3.BoolVal(False), letters, all_sat=True,
-                        max_models=ctx.cap('Q08u') + 1000, second=ctx.second, workdir=ctx.workdir,
+    ob.extra['cases_vars'] = [[str(c) for c in w] for w in cases]
+    ob.verdict = decide(ob.qid, assume + ob.defs, z3.Or(*bads) if bads else z3.BoolVal(False), allv, all_sat=True,
+                        max_models=ctx.cap('Q10u' if orders else 'Q08u') + (0 if orders else 300), second=ctx.second, workdir=ctx.workdir,
                         second_timeout_s=getattr(ctx, 'second_timeout', 60), blocker=blocker)
     ob.extra['cases_ix'] = words_ix
     return ob
@@ -3393,6 +3455,96 @@ def q03t(ctx, lens=(2,), flagset=('digits',), domain='printable'):
                         second=tuple(x for x in ctx.second if not (getattr(ctx, 'tier', 'quick') == 'quick' and x.startswith('cvc5'))),
                         second_timeout_s=getattr(ctx, 'second_timeout', 60), block_vars=allv)
     ob.extra['flags'] = flags
+    return ob
+
+
+# =========================================================================== Q10h  the output does not depend on hash iteration order
+@guarded
+def q10h(ctx, lens=(2, 1), settings=None):
+    """Q10h: build() prints the same text whatever order HashSet / HashMap iteration takes (per-process hash seeds)"""
+    settings = dict(settings or {})
+    stag = ''.join('[%s]' % k for k in sorted(settings) if settings[k])
+    ob = Obligation('Q10h[%s]%s' % (','.join(map(str, lens)), stag), q10h.__doc__)
+    policies = ['insertion', 'reverse', 'rotate']
+    ob.domain = ('%d test cases of %s letters a..z (every equality pattern); settings: %s; RegExp::from and Display for RegExp are run once per '
+                 'hash-order policy -- every HashSet / HashMap iteration (iter, into_iter, intersection, difference) yields its entries in '
+                 'insertion order / reversed / rotated by one -- and the printed texts are compared pairwise' % (
+                     len(lens), '/'.join(map(str, lens)), ', '.join(k for k in sorted(settings) if settings[k]) or 'default'))
+    ob.bound = 'exactly these lengths; 3 of the n! iteration orders of every hash container'
+    cases = [[z3.BitVec('s%d_%d' % (i, j), 32) for j in range(n)] for i, n in enumerate(lens)]
+    allv = [v for c in cases for v in c]
+    assume = [z3.And(z3.UGE(v, BV(0x61, 32)), z3.ULE(v, BV(0x7A, 32))) for v in allv]
+    fields = ctx.mir.structs.get('RegExpConfig')
+    names = {'repetitions': 'is_repetition_converted', 'verbose': 'is_verbose_mode_enabled', 'capture': 'is_capturing_group_enabled',
+             'no_start_anchor': 'is_start_anchor_disabled', 'no_end_anchor': 'is_end_anchor_disabled'}
+    ex = ctx.new_exec([(P(r'^<str as UnicodeSegmentation>::graphemes$'), m_graphemes_per_letter)] + make_regex_search_models(ctx) +
+                      make_gc_models(ctx) + make_regex_models(ctx, lambda x: orbit_rep(ctx, x)))
+    f_from = ctx.mir.one_fn(r'^regexp::<impl at [^>]*>::from$')
+    f_fmt = display_fmt_name(ctx, 'RegExp')
+    t0 = time.time()
+
+    def run(policy):
+        ex.hash_order = policy
+        off = {k: (BV(1, 32) if k.startswith('minimum_') else z3.BoolVal(False)) for k in fields}
+        for k, val in settings.items():
+            if k not in names:
+                raise Inconclusive('setting %s is not supported by Q10h' % k)
+            off[names[k]] = z3.BoolVal(bool(val))
+        st = State(pc=list(assume))
+        cfg = st.ref(config_value(ctx, off))
+        v = st.ref(ListV([SymStr(c) for c in cases]))
+        res = []
+        for o in ex.run_fn(st, f_from, [v, cfg]):
+            if o.panic:
+                res.append((o.st, None))
+                continue
+            buf = o.st.ref(SymStr(()))
+            for o2 in ex.run_fn(o.st, f_fmt, [o.st.ref(o.val), buf]):
+                res.append((o2.st, None if o2.panic else list(o2.st.load(buf).items)))
+        return res
+    runs = {p_: run(p_) for p_ in policies}
+    ex.hash_order = 'insertion'
+    bads = []
+    npaths = 0
+    base = runs['insertion']
+    for other in policies[1:]:
+        for sp, tp in base:
+            ids_p = {d.get_id() for d in sp.pc}
+            neg_p = {z3.Not(d).get_id() for d in sp.pc} | {d.arg(0).get_id() for d in sp.pc if z3.is_not(d)}
+            for sq, tq in runs[other]:
+                extra = [c for c in sq.pc if c.get_id() not in ids_p]
+                if any(c.get_id() in neg_p for c in extra):
+                    continue        # the two paths took opposite sides of the same branch
+                if extra and not ex.feasible(sp.pc, z3.And(*extra)):
+                    continue
+                npaths += 1
+                both = list(sp.pc) + extra
+                if tp is None or tq is None:
+                    if (tp is None) != (tq is None):
+                        bads.append(z3.And(*both))
+                    continue
+                cls = 'same-shape' if len(tp) == len(tq) else 'different-length'
+                ob.classes_seen[cls] = ob.classes_seen.get(cls, 0) + 1
+                if len(tp) != len(tq):
+                    bads.append(z3.And(*both))
+                else:
+                    diff = z3.simplify(z3.Not(z3.And(*[x == y for x, y in zip(tp, tq)])))
+                    if not z3.is_false(diff):
+                        bads.append(z3.And(*both, diff))
+    ctx.finish(ob, ex, t0)
+    ob.paths = npaths
+    ob.extra['paths_per_policy'] = {p_: len(r) for p_, r in runs.items()}
+
+    def blocker(m):
+        vals = [m.eval(c, model_completion=True).as_long() for c in allv]
+        parts = []
+        for i in range(len(allv)):
+            for j in range(i + 1, len(allv)):
+                parts.append((allv[i] == allv[j]) if vals[i] == vals[j] else (allv[i] != allv[j]))
+        return z3.Not(z3.And(*parts)) if parts else z3.BoolVal(False)
+    ob.verdict = decide(ob.qid, assume + ob.defs, z3.Or(*bads) if bads else z3.BoolVal(False), allv, all_sat=True,
+                        max_models=ctx.cap('Q10h'), second=ctx.second, workdir=ctx.workdir,
+                        second_timeout_s=getattr(ctx, 'second_timeout', 60), blocker=blocker)
     return ob
 
 
